@@ -7,12 +7,14 @@
 package veriflib
 
 import (
+	"context"
 	"encoding/binary"
 	"encoding/json"
 	"fmt"
 	"hash/fnv"
 	"os"
 	"path/filepath"
+	"reflect"
 	"runtime"
 	"sort"
 	"strconv"
@@ -429,4 +431,52 @@ func WatchCase(property, facet string, c any) func() {
 		stall.active = false
 		stall.mu.Unlock()
 	}
+}
+
+// Call invokes fn - a private function of the code under test - with the given arguments, whatever its exact parameter
+// list: the harness depends on what the function does, not on its private signature. Every parameter takes the first
+// unused argument assignable to it; a context.Context parameter without a matching argument gets a context that is never
+// cancelled; anything else its zero value. It returns the results.
+func Call(fn any, args ...any) []reflect.Value {
+	fv := reflect.ValueOf(fn)
+	ft := fv.Type()
+	if ft.Kind() != reflect.Func || ft.IsVariadic() {
+		panic(fmt.Sprintf("veriflib.Call: unsupported function type %s", ft))
+	}
+	used := make([]bool, len(args))
+	in := make([]reflect.Value, ft.NumIn())
+	ctxType := reflect.TypeOf((*context.Context)(nil)).Elem()
+	for i := range in {
+		pt := ft.In(i)
+		found := false
+		for j, a := range args {
+			if used[j] || a == nil {
+				continue
+			}
+			if av := reflect.ValueOf(a); av.Type().AssignableTo(pt) {
+				in[i], used[j], found = av, true, true
+				break
+			}
+		}
+		if found {
+			continue
+		}
+		if pt.Kind() == reflect.Interface && ctxType.Implements(pt) && pt.NumMethod() > 0 {
+			in[i] = reflect.ValueOf(context.Background())
+		} else {
+			in[i] = reflect.Zero(pt)
+		}
+	}
+	return fv.Call(in)
+}
+
+// CallAs is Call for functions with one result of type T (the zero T when the result list has changed shape).
+func CallAs[T any](fn any, args ...any) T {
+	var zero T
+	for _, r := range Call(fn, args...) {
+		if v, ok := r.Interface().(T); ok {
+			return v
+		}
+	}
+	return zero
 }
